@@ -73,6 +73,9 @@ econf_err key_file_append(econf_file *kf) {
 
 econf_err getIntValueNum(econf_file key_file, size_t num, int32_t *result) {
   char *endptr;
+
+  if (key_file.file_entry[num].value == NULL)
+    return ECONF_KEY_HAS_NULL_VALUE;
   errno = 0;
   *result = strtol(key_file.file_entry[num].value, &endptr, 0);
   if (endptr == key_file.file_entry[num].value || errno == ERANGE || (errno != 0 && *result == 0))
@@ -82,6 +85,9 @@ econf_err getIntValueNum(econf_file key_file, size_t num, int32_t *result) {
 
 econf_err getInt64ValueNum(econf_file key_file, size_t num, int64_t *result) {
   char *endptr;
+
+  if (key_file.file_entry[num].value == NULL)
+    return ECONF_KEY_HAS_NULL_VALUE;
   errno = 0;
   *result = strtoll(key_file.file_entry[num].value, &endptr, 0);
   if (endptr == key_file.file_entry[num].value || errno == ERANGE || (errno != 0 && *result == 0))
@@ -91,6 +97,9 @@ econf_err getInt64ValueNum(econf_file key_file, size_t num, int64_t *result) {
 
 econf_err getUIntValueNum(econf_file key_file, size_t num, uint32_t *result) {
   char *endptr;
+
+  if (key_file.file_entry[num].value == NULL)
+    return ECONF_KEY_HAS_NULL_VALUE;
   errno = 0;
   *result = strtoul(key_file.file_entry[num].value, &endptr, 0);
   if (endptr == key_file.file_entry[num].value || errno == ERANGE || (errno != 0 && *result == 0))
@@ -100,6 +109,9 @@ econf_err getUIntValueNum(econf_file key_file, size_t num, uint32_t *result) {
 
 econf_err getUInt64ValueNum(econf_file key_file, size_t num, uint64_t *result) {
   char *endptr;
+
+  if (key_file.file_entry[num].value == NULL)
+    return ECONF_KEY_HAS_NULL_VALUE;
   errno = 0;
   *result = strtoull(key_file.file_entry[num].value, &endptr, 0);
   if (endptr == key_file.file_entry[num].value || errno == ERANGE || (errno != 0 && *result == 0))
@@ -109,6 +121,9 @@ econf_err getUInt64ValueNum(econf_file key_file, size_t num, uint64_t *result) {
 
 econf_err getFloatValueNum(econf_file key_file, size_t num, float *result) {
   char *endptr;
+
+  if (key_file.file_entry[num].value == NULL)
+    return ECONF_KEY_HAS_NULL_VALUE;
   errno = 0;
   *result = strtof(key_file.file_entry[num].value, &endptr);
   if (endptr == key_file.file_entry[num].value) /* do not check errno because it is a false alarm in ppc and S390 */
@@ -118,6 +133,9 @@ econf_err getFloatValueNum(econf_file key_file, size_t num, float *result) {
 
 econf_err getDoubleValueNum(econf_file key_file, size_t num, double *result) {
   char *endptr;
+
+  if (key_file.file_entry[num].value == NULL)
+    return ECONF_KEY_HAS_NULL_VALUE;
   errno = 0;
   *result = strtod(key_file.file_entry[num].value, &endptr);
   if (endptr == key_file.file_entry[num].value || errno == ERANGE || (errno != 0 && *result == 0))
@@ -141,6 +159,9 @@ econf_err getStringValueNum(econf_file key_file, size_t num, char **result) {
 econf_err getBoolValueNum(econf_file key_file, size_t num, bool *result) {
   const char *value = key_file.file_entry[num].value;
   econf_err err = ECONF_SUCCESS;
+
+  if (value == NULL)
+    return ECONF_KEY_HAS_NULL_VALUE;
 
   if (!strcmp(value, "1") || !strcasecmp(value, "yes") ||
       !strcasecmp(value, "true"))
